@@ -22,6 +22,26 @@
                           (vf_u128)__CPROVER_OBJECT_SIZE((s)->v.elem.base) >= ((vf_u128)(s)->v.cap + 1) * CHSZ && \
                           (s)->v.count >= 1 && S_DATA(s)[(s)->v.count - 1] == NUL))
 #define S_WF(s)         (S_NUM(s) && S_STORE(s))
+/* a ghost character index: any index of the string, or 0 (always readable: the terminator of a
+ * string of size 0 that has storage); facts about it are guarded by `< old size` where needed */
+#define S_GHOST(x)      ((x) < S_SIZE(s) || (x) == 0)
+#ifdef VF_ASSUMED_POST
+#define S_INS_G         vf_w_k
+#else
+#define S_INS_G         vf_w_g
+#endif
+/* Post-state storage of a function that may reallocate.  Proved form (the function is the one
+ * under --enforce-contract): S_WF, i.e. the old block or a new one, live and large enough.
+ * Assumed form (the function is replaced by its contract in a caller's proof, -DVF_ASSUMED_POST):
+ * "the same block or a new block" is abstracted to "a new block" that carries the same ghost-index
+ * facts -- weaker knowledge about the contents, and sound for callers that hold no other pointer
+ * into the old block (callers are required to pass sources that do not alias the string). */
+#ifdef VF_ASSUMED_POST
+#define S_WF_POST(s)    (S_NUM(s) && (s)->v.count >= 1 && ((vf_u128)(s)->v.cap + 1) * CHSZ <= S_MAXB * 4 &&  \
+                         FRESH((s)->v.elem.base, ((s)->v.cap + 1) * CHSZ) && S_DATA(s)[(s)->v.count - 1] == NUL)
+#else
+#define S_WF_POST(s)    S_WF(s)
+#endif
 #ifdef VF_S_EMPTY
 #define S_PRE(s)        (FRESH(s, sizeof(struct ST)) && S_NUM(s) && (s)->v.elem.base == NULL && (s)->v.cap == 0 && (s)->v.count == 0)
 #else
@@ -46,17 +66,19 @@ ENSURES((vf_u128)pos + *len <= S_SIZE(s))
 static void SN(__resize)(struct ST * const s, const size_t n)
 REQUIRES(S_PRE(s))
 #ifndef VF_S_EMPTY
-REQUIRES(vf_w_g < S_SIZE(s))
+REQUIRES(S_GHOST(vf_w_g))
 #endif
 ASSIGNS(s->v.elem.base, s->v.cap, s->v.count, vf_aborted, vf_cons_calls, vf_dest_calls, vf_xtor_next, vf_xtor_bad)
 #ifndef VF_S_EMPTY
 ASSIGNS(__CPROVER_object_whole(s->v.elem.base))
 #endif
 FREES(s->v.elem.base)
-ENSURES(S_WF(s) && S_SIZE(s) == n && s->v.count == n + 1 && S_DATA(s)[n] == NUL)
+ENSURES(S_WF_POST(s) && S_SIZE(s) == n && s->v.count == n + 1 && S_DATA(s)[n] == NUL)
 #ifndef VF_S_EMPTY
-ENSURES(vf_w_g < n ==> S_DATA(s)[vf_w_g] == OLD(S_DATA(s)[vf_w_g]))
+ENSURES((vf_w_g < n && vf_w_g < vf_w_size) ==> S_DATA(s)[vf_w_g] == OLD(S_DATA(s)[vf_w_g]))
+#ifndef VF_ASSUMED_POST   /* (pointer identity is not part of the assumed form, see S_WF_POST) */
 ENSURES(n + 1 <= vf_w_cap ==> s->v.elem.base == OLD(s->v.elem.base))
+#endif
 #endif
 ;
 
@@ -82,7 +104,7 @@ ENSURES(s->v.elem.base == OLD(s->v.elem.base))
 static void SN(prep_insert)(struct ST * const s, const size_t pos, const size_t len)
 REQUIRES(S_PRE(s))
 #ifndef VF_S_EMPTY
-REQUIRES(vf_w_g < S_SIZE(s) && vf_w_h < S_SIZE(s))
+REQUIRES(S_GHOST(vf_w_g) && S_GHOST(vf_w_h))
 #endif
 ASSIGNS(s->v.elem.base, s->v.cap, s->v.count, vf_aborted, vf_cons_calls, vf_dest_calls, vf_xtor_next, vf_xtor_bad)
 #ifndef VF_S_EMPTY
@@ -91,16 +113,168 @@ ASSIGNS(__CPROVER_object_whole(s->v.elem.base))
 FREES(s->v.elem.base)
 #ifdef VF_S_EMPTY
 ENSURES(pos == 0)
-ENSURES(len == 0 ? (s->v.count == 0 && s->v.elem.base == NULL) : (S_WF(s) && S_SIZE(s) == len))
+ENSURES(len == 0 ? (s->v.count == 0 && s->v.elem.base == NULL) : (S_WF_POST(s) && S_SIZE(s) == len))
 #else
 ENSURES(pos <= vf_w_size)
-ENSURES(S_WF(s) && (vf_u128)S_SIZE(s) == (vf_u128)vf_w_size + len)
+ENSURES(S_WF_POST(s) && (vf_u128)S_SIZE(s) == (vf_u128)vf_w_size + len)
 /* characters before the gap stay */
 ENSURES(vf_w_g < pos ==> S_DATA(s)[vf_w_g] == OLD(S_DATA(s)[vf_w_g]))
 /* characters from the gap position on move up by len */
-ENSURES((vf_w_h >= pos && len > 0) ==> S_DATA(s)[vf_w_h + len] == OLD(S_DATA(s)[vf_w_h]))
+ENSURES((vf_w_h >= pos && vf_w_h < vf_w_size && len > 0) ==> S_DATA(s)[vf_w_h + len] == OLD(S_DATA(s)[vf_w_h]))
 #endif
 ;
+
+#ifdef VF_G_insert_str_n
+/* insert_str_n: exactly len characters of str open at idx, whatever those characters are
+ * (embedded NULs included): the result is old[0,idx) ++ str[0,len) ++ old[idx,size).
+ * str does not point into the string itself (documented). */
+void SN(insert_str_n)(struct ST * const s, const size_t idx, const CH * const str, const size_t len)
+REQUIRES(S_PRE(s))
+REQUIRES((vf_u128)len * CHSZ <= S_MAXB && len >= 1 && FRESH(str, len * CHSZ))
+#ifdef VF_INS_NEW
+/* variant "inserted characters": the ghost index S_INS_G < len is a character of str (in the
+ * modular form the indices g, h belong to the replaced prep_insert contract, so k is used) */
+REQUIRES(S_INS_G < len)
+#ifdef VF_ASSUMED_POST
+#ifndef VF_S_EMPTY
+REQUIRES(S_GHOST(vf_w_g) && S_GHOST(vf_w_h))
+#endif
+#endif
+#else
+#ifndef VF_S_EMPTY
+REQUIRES(S_GHOST(vf_w_g) && S_GHOST(vf_w_h))
+#endif
+#endif
+ASSIGNS(s->v.elem.base, s->v.cap, s->v.count, vf_aborted, vf_cons_calls, vf_dest_calls, vf_xtor_next, vf_xtor_bad)
+#ifndef VF_S_EMPTY
+ASSIGNS(__CPROVER_object_whole(s->v.elem.base))
+#endif
+FREES(s->v.elem.base)
+#ifdef VF_S_EMPTY
+ENSURES(idx == 0)
+ENSURES(S_WF_POST(s) && S_SIZE(s) == len)
+#else
+ENSURES(idx <= vf_w_size)
+ENSURES(S_WF_POST(s) && (vf_u128)S_SIZE(s) == (vf_u128)vf_w_size + len)
+#endif
+#ifdef VF_INS_NEW
+ENSURES(S_DATA(s)[idx + S_INS_G] == OLD(str[S_INS_G]))
+#else
+#ifndef VF_S_EMPTY
+ENSURES(vf_w_g < idx ==> S_DATA(s)[vf_w_g] == OLD(S_DATA(s)[vf_w_g]))
+ENSURES((vf_w_h >= idx && vf_w_h < vf_w_size) ==> S_DATA(s)[vf_w_h + len] == OLD(S_DATA(s)[vf_w_h]))
+#endif
+#endif
+;
+#endif
+
+#ifdef VF_G_insert
+/* insert (header wrapper): all size(ins) characters of the other string object are inserted,
+ * whatever they are -- the length comes from the object, not from a NUL search.
+ * insert_str_n is replaced by its contract (proved in string.insert_str_n.*). */
+static inline void SN(insert)(struct ST * s, size_t pos, const struct ST * ins)
+REQUIRES(S_PRE(s))
+REQUIRES(FRESH(ins, sizeof(struct ST)) && S_NUM(ins) && ins->v.count >= 2 && ((vf_u128)ins->v.cap + 1) * CHSZ <= S_MAXB &&
+         FRESH(ins->v.elem.base, (ins->v.cap + 1) * CHSZ) && S_DATA(ins)[ins->v.count - 1] == NUL && vf_w_len == S_SIZE(ins))
+REQUIRES(S_INS_G < S_SIZE(ins))
+#ifndef VF_S_EMPTY
+REQUIRES(S_GHOST(vf_w_g) && S_GHOST(vf_w_h))
+#endif
+ASSIGNS(s->v.elem.base, s->v.cap, s->v.count, vf_aborted, vf_cons_calls, vf_dest_calls, vf_xtor_next, vf_xtor_bad)
+#ifndef VF_S_EMPTY
+ASSIGNS(__CPROVER_object_whole(s->v.elem.base))
+#endif
+FREES(s->v.elem.base)
+#ifdef VF_S_EMPTY
+ENSURES(pos == 0 && S_SIZE(s) == vf_w_len)
+#else
+ENSURES(pos <= vf_w_size && (vf_u128)S_SIZE(s) == (vf_u128)vf_w_size + vf_w_len)
+#endif
+ENSURES(S_DATA(s)[pos + S_INS_G] == OLD(S_DATA(ins)[S_INS_G]))
+;
+#endif
+
+#ifdef VF_G_insert_ch
+/* insert_ch: cnt copies of ch open at idx: old[0,idx) ++ ch^cnt ++ old[idx,size).
+ * prep_insert is replaced by its contract (proved in string.prep_insert.*); the fill loop
+ * carries a loop contract (spec/loops/string.lc). */
+void SN(insert_ch)(struct ST * const s, size_t idx, size_t cnt, const CH ch)
+REQUIRES(S_PRE(s))
+#ifdef VF_S_EMPTY
+/* (cnt == 0 on an empty string: prep_insert's no-op path, proved there, and a loop that does not
+ * execute; excluded here because the loop contract's frame names the -- then absent -- storage) */
+REQUIRES(cnt >= 1)
+#endif
+#ifndef VF_S_EMPTY
+REQUIRES(S_GHOST(vf_w_g) && S_GHOST(vf_w_h))
+#endif
+ASSIGNS(s->v.elem.base, s->v.cap, s->v.count, vf_aborted, vf_cons_calls, vf_dest_calls, vf_xtor_next, vf_xtor_bad)
+#ifndef VF_S_EMPTY
+ASSIGNS(__CPROVER_object_whole(s->v.elem.base))
+#endif
+FREES(s->v.elem.base)
+#ifdef VF_S_EMPTY
+ENSURES(idx == 0)
+ENSURES(S_WF(s) && S_SIZE(s) == cnt)
+#else
+ENSURES(idx <= vf_w_size)
+ENSURES(S_NUM(s))
+ENSURES(S_STORE(s))
+ENSURES((vf_u128)S_SIZE(s) == (vf_u128)vf_w_size + cnt)
+ENSURES(vf_w_g < idx ==> S_DATA(s)[vf_w_g] == OLD(S_DATA(s)[vf_w_g]))
+ENSURES((vf_w_h >= idx && vf_w_h < vf_w_size && cnt > 0) ==> S_DATA(s)[vf_w_h + cnt] == OLD(S_DATA(s)[vf_w_h]))
+#endif
+ENSURES(vf_w_k < cnt ==> S_DATA(s)[idx + vf_w_k] == ch)
+;
+#endif
+
+#ifdef VF_G_resize
+/* resize (public): exactly n characters, kept prefix, every new character is NUL.
+ * __resize is replaced by its contract (proved in string.resize0.*); the padding loop carries a
+ * loop contract (spec/loops/string.lc). */
+void SN(resize)(struct ST * const s, const size_t n)
+REQUIRES(S_PRE(s))
+#ifndef VF_S_EMPTY
+REQUIRES(S_GHOST(vf_w_g) && (vf_w_g < n || vf_w_g == 0))
+#endif
+ASSIGNS(s->v.elem.base, s->v.cap, s->v.count, vf_aborted, vf_cons_calls, vf_dest_calls, vf_xtor_next, vf_xtor_bad)
+#ifndef VF_S_EMPTY
+ASSIGNS(__CPROVER_object_whole(s->v.elem.base))
+#endif
+FREES(s->v.elem.base)
+ENSURES(S_WF(s) && S_SIZE(s) == n && s->v.count == n + 1 && S_DATA(s)[n] == NUL)
+#ifndef VF_S_EMPTY
+ENSURES((vf_w_g < n && vf_w_g < vf_w_size) ==> S_DATA(s)[vf_w_g] == OLD(S_DATA(s)[vf_w_g]))
+ENSURES((vf_w_k >= vf_w_size && vf_w_k < n) ==> S_DATA(s)[vf_w_k] == NUL)
+#else
+ENSURES(vf_w_k < n ==> S_DATA(s)[vf_w_k] == NUL)
+#endif
+;
+#endif
+
+#if defined(VF_G_substr) && !defined(VF_S_EMPTY)
+/* substr: sub becomes exactly the characters [idx, idx + min(len, size - idx)) of s, for every
+ * len; s is not modified (it is not in the frame).  All callees inlined down to realloc.
+ * sub is an empty object (-DVF_SUB_EMPTY) or has storage; sub != s (documented). */
+#ifdef VF_SUB_EMPTY
+#define SUB_PRE(t)      (FRESH(t, sizeof(struct ST)) && S_NUM(t) && (t)->v.elem.base == NULL && (t)->v.cap == 0 && (t)->v.count == 0)
+#else
+#define SUB_PRE(t)      (FRESH(t, sizeof(struct ST)) && S_NUM(t) && (t)->v.count >= 1 && ((vf_u128)(t)->v.cap + 1) * CHSZ <= S_MAXB && \
+                         FRESH((t)->v.elem.base, ((t)->v.cap + 1) * CHSZ) && S_DATA(t)[(t)->v.count - 1] == NUL)
+#endif
+void SN(substr)(const struct ST * const s, const size_t idx, size_t len, struct ST * const sub)
+REQUIRES(S_PRE(s) && SUB_PRE(sub) && S_GHOST(vf_w_g))
+ASSIGNS(sub->v.elem.base, sub->v.cap, sub->v.count, vf_aborted, vf_cons_calls, vf_dest_calls, vf_xtor_next, vf_xtor_bad)
+#ifndef VF_SUB_EMPTY
+ASSIGNS(__CPROVER_object_whole(sub->v.elem.base))
+#endif
+FREES(sub->v.elem.base)
+ENSURES(idx < vf_w_size)
+ENSURES(S_WF(sub) && S_SIZE(sub) == (len > vf_w_size - idx ? vf_w_size - idx : len))
+ENSURES((vf_w_g >= idx && vf_w_g - idx < S_SIZE(sub)) ==> S_DATA(sub)[vf_w_g - idx] == OLD(S_DATA(s)[vf_w_g]))
+;
+#undef SUB_PRE
+#endif
 
 CH * SN(at)(struct ST * const s, const size_t i)
 REQUIRES(S_PRE(s))
@@ -130,4 +304,7 @@ ENSURES(RESULT == S_DATA(s) && RESULT[S_SIZE(s)] == NUL)
 #undef S_NUM
 #undef S_STORE
 #undef S_WF
+#undef S_GHOST
+#undef S_INS_G
+#undef S_WF_POST
 #undef S_PRE
